@@ -2,8 +2,8 @@
    table of the tree being checked (Units/Generated/UnitTable.v), and the
    boolean per-entry checks whose exhaustive evaluation gives the finite
    obligations of C11 / C04 / C05.  No proofs here. *)
-From FendV Require Import Base.Prelude Units.Defs Units.Algebra Units.Lookup Units.Index Units.Legality.
-From FendV Require Import Units.Generated.UnitTable.
+From FendV Require Import Base.Prelude Units.Defs Units.Algebra Units.Lookup Units.Index Units.Legality Units.Dim.
+From FendV Require Import Units.Generated.UnitTable Units.Standards.
 From Coq Require Import QArith.
 Close Scope Q_scope.
 Open Scope N_scope.
@@ -312,3 +312,94 @@ Definition known_family : list str :=
 Definition known_sing_plur : list str := [[103;97;108]].
 (* T = s@tesla is shadowed by T = 1e12; link = l@1/25 rod by link = 1/100 chain *)
 Definition known_unreachable : list str := [[84]; [108;105;110;107]].
+
+(* ------------------------------------------------------------------ *)
+(* C04 per-entry checks *)
+
+(* every name denotes a non-zero scale (so every conversion is invertible) *)
+Definition chk_scale_nonzero (n : str) : bool :=
+  match impl_quantity n with
+  | Some q => negb (real_is_zero (q_scale q))
+  | None => false
+  end.
+
+(* 1 name = factor x SI base units, exactly.  A name that the table of the
+   tree being checked does not contain (any more) is not an obligation. *)
+Definition chk_standard (e : str * real * hmap) : bool :=
+  let '(n, f, dims) := e in
+  match impl_entry n with
+  | None => true
+  | Some _ =>
+    match impl_quantity n with
+    | Some q => hmap_eqb dims (q_dim q) && q_exact q && real_eqb f (q_scale q)
+    | None => false
+    end
+  end.
+
+(* dyne / dynes / dyn are g*gal with gal = gallon (known_findings.d/C04.json) *)
+Definition known_standards : list str :=
+  [[100;121;110;101]; [100;121;110;101;115]; [100;121;110]].
+
+(* ---- temperatures and other concrete conversions, through the model ---- *)
+Definition with_val (x : Q) (v : value) : value := mkval (Simple x) (v_units v) true true.
+
+(* magnitude of  (x A) to B  when the model computes it exactly as a rational *)
+Definition conv_q (x : Q) (a b : str) : option Q :=
+  match model_resolve a, model_resolve b with
+  | LOk va, LOk vb =>
+    match v_convert_to (with_val x va) vb with
+    | Ok v => if v_exact v then match v_val v with Simple q => Some (Qred q) | Pi _ => None end else None
+    | _ => None
+    end
+  | _, _ => None
+  end.
+
+(* magnitude of  (x A) + (y B)  in A *)
+Definition add_q (x : Q) (a : str) (y : Q) (b : str) : option Q :=
+  match model_resolve a, model_resolve b with
+  | LOk va, LOk vb =>
+    match v_add (with_val x va) (with_val y vb) with
+    | Ok v => if v_exact v then match v_val v with Simple q => Some (Qred q) | Pi _ => None end else None
+    | _ => None
+    end
+  | _, _ => None
+  end.
+
+(* magnitude of  (x A/B') to (C/B'): temperatures inside a compound unit *)
+Definition conv_per_q (x : Q) (a c per : str) : option Q :=
+  match model_resolve a, model_resolve c, model_resolve per with
+  | LOk va, LOk vc, LOk vp =>
+    match v_div (with_val x va) vp, v_div (with_val 1 vc) vp with
+    | Ok n, Ok d =>
+      match v_convert_to n d with
+      | Ok v => if v_exact v then match v_val v with Simple q => Some (Qred q) | Pi _ => None end else None
+      | _ => None
+      end
+    | _, _ => None
+    end
+  | _, _, _ => None
+  end.
+
+Definition n_degC : str := [176;67].
+Definition n_degF : str := [176;70].
+Definition n_K : str := [75].
+Definition n_degR : str := [176;82].
+Definition n_kilocelsius : str := [107;105;108;111;99;101;108;115;105;117;115].
+Definition n_J : str := [74].
+
+(* ------------------------------------------------------------------ *)
+(* C05 per-entry check: the model's to_hashmap_and_scale of the value of a
+   name gives the base-unit map and scale that the tree's own
+   to_hashmap_and_scale gave (the reduced record of the dump) *)
+Definition chk_reduced_agrees (n : str) : bool :=
+  match model_resolve n with
+  | LOk v => opt_quantity_eqb (value_quantity v) (impl_quantity n)
+  | _ => false
+  end.
+
+(* a compound expression for the examples: (3 km / 2 s) + 5 mph *)
+Definition ex_speed : uexpr :=
+  UAdd (UDiv (UMul (UNum (Qmake 3 1)) (UName [107;109])) (UMul (UNum (Qmake 2 1)) (UName [115])))
+       (UMul (UNum (Qmake 5 1)) (UName [109;112;104])).
+(* 1 km + 1 s *)
+Definition ex_bad : uexpr := UAdd (UName [107;109]) (UName [115]).
